@@ -297,6 +297,7 @@ func runC04(c *Ctx) {
 		}
 	}
 	runC04Batcher(c)
+	runC04Round4(c)
 	{
 		sub := NewCtx(p, "C06", c.Tier, c.Config)
 		sub.Rule("R6", "DEP", "", 0)
